@@ -406,7 +406,8 @@ Inductive anycase :=
   | AMicro (x : list Z * list Z * list bool)
   | AExit (x : Z * Z * list bool)
   | ASendall (x : list Z * list Z)
-  | ASendWin (x : Z * Z * list Z).
+  | ASendWin (x : Z * Z * list Z)
+  | ACase (x : list Z * list Z * list Z * list op).
 Definition run_any (a : anycase) : list Z :=
   match a with
   | APtype m => run_ptype m
@@ -414,4 +415,5 @@ Definition run_any (a : anycase) : list Z :=
   | AExit x => run_exit x
   | ASendall x => run_sendall x
   | ASendWin x => run_sendall_win x
+  | ACase x => run_case x
   end.
